@@ -137,6 +137,15 @@ func concatMaps(ms reflect.Value) (reflect.Value, error) {
 		vals := rms.MapIndex(key)
 
 		anyVals := vals.Interface().([]any)
+		if len(anyVals) == 1 {
+			// a key that only one chunk carries keeps its value as it is, a nil value included
+			one := reflect.ValueOf(anyVals[0])
+			if !one.IsValid() {
+				one = reflect.Zero(typ.Elem())
+			}
+			ret.SetMapIndex(key, one)
+			continue
+		}
 		v, err := toSliceValue(anyVals)
 		if err != nil {
 			return reflect.Value{}, err
